@@ -92,3 +92,78 @@ func zzC04QuicGreaseVersionValue() {
 	}
 	verifReach("end")
 }
+
+//verif:harness C04 custom_keyshare_grease unwind=400 instrs=200000000 paths=4000 wall=600
+//verif:expect end
+//verif:doc Custom spec (HelloCustom + ApplyPreset + BuildHandshakeState, all random bytes symbolic) with GREASE placeholders in cipher suites, supported_groups, supported_versions, two GREASE extensions, and a GREASE key share whose key_exchange has 0..4 arbitrary bytes (the shape a fingerprinted hello produces): on the wire the key_share GREASE group is reserved and equals the supported_groups GREASE group, the GREASE cipher/version values are reserved, and the two GREASE extension code points are reserved and differ.
+func zzC04CustomKeyShareGrease() {
+	n := verifChoice("grease-share-len", 5)
+	data := verifBytes("grease-share", n)
+	spec := ClientHelloSpec{
+		CipherSuites:       []uint16{GREASE_PLACEHOLDER, TLS_AES_128_GCM_SHA256, TLS_ECDHE_RSA_WITH_AES_128_GCM_SHA256},
+		CompressionMethods: []uint8{0},
+		Extensions: []TLSExtension{
+			&UtlsGREASEExtension{},
+			&SNIExtension{},
+			&SupportedCurvesExtension{Curves: []CurveID{GREASE_PLACEHOLDER, X25519, CurveP256}},
+			&SupportedPointsExtension{SupportedPoints: []byte{0}},
+			&SignatureAlgorithmsExtension{SupportedSignatureAlgorithms: []SignatureScheme{ECDSAWithP256AndSHA256, PSSWithSHA256}},
+			&KeyShareExtension{KeyShares: []KeyShare{{Group: GREASE_PLACEHOLDER, Data: data}, {Group: X25519}}},
+			&SupportedVersionsExtension{Versions: []uint16{GREASE_PLACEHOLDER, VersionTLS13, VersionTLS12}},
+			&UtlsGREASEExtension{},
+		},
+	}
+	cfg := zzConfig("example.com")
+	uc := UClient(&zzRecConn{}, cfg, HelloCustom)
+	if err := uc.ApplyPreset(&spec); err != nil {
+		verifFail("apply-preset", "custom-keyshare-grease")
+		return
+	}
+	if err := uc.BuildHandshakeState(); err != nil {
+		verifFail("build", "custom-keyshare-grease")
+		return
+	}
+	h, why := zzRefParseClientHello(uc.HandshakeState.Hello.Raw)
+	verifAssertClass(why == "", "hello-parses-strictly", "custom-keyshare-grease:"+why)
+	if why != "" {
+		return
+	}
+	var sg, ks uint16
+	if b, ok := h.ext(10); ok {
+		vs, ok := zzRefU16ListBody(b, 2)
+		verifAssert(ok && len(vs) == 3, "custom-supported-groups-shape")
+		if ok && len(vs) == 3 {
+			sg = vs[0]
+		}
+	} else {
+		verifFail("custom-supported-groups-present", "")
+	}
+	if b, ok := h.ext(51); ok {
+		gs, lens, _, ok := zzKeyShareEntries(b)
+		verifAssert(ok && len(gs) == 2, "custom-key-share-shape")
+		if ok && len(gs) == 2 {
+			ks = gs[0]
+			verifAssert(gs[1] == uint16(X25519) && lens[1] == 32, "custom-real-share-kept")
+		}
+	} else {
+		verifFail("custom-key-share-present", "")
+	}
+	verifAssert(zzRefIsGREASE16(sg), "custom-grease-group-reserved")
+	verifAssert(zzRefIsGREASE16(ks), "custom-key-share-grease-reserved")
+	verifAssert(sg == ks, "custom-key-share-grease-equals-supported-groups-grease")
+	verifAssertPossible(ks != 0x0a0a, "custom-key-share-grease-varies", "")
+	if len(h.suites) == 3 {
+		verifAssert(zzRefIsGREASE16(h.suites[0]), "custom-grease-cipher-reserved")
+	}
+	if b, ok := h.ext(43); ok {
+		if vs, ok := zzRefU16ListBody(b, 1); ok && len(vs) == 3 {
+			verifAssert(zzRefIsGREASE16(vs[0]), "custom-grease-version-reserved")
+		}
+	}
+	if len(h.exts) >= 2 {
+		first, last := h.exts[0].typ, h.exts[len(h.exts)-1].typ
+		verifAssert(zzRefIsGREASE16(first) && zzRefIsGREASE16(last), "custom-grease-extensions-reserved")
+		verifAssert(first != last, "custom-grease-extensions-differ")
+	}
+	verifReach("end")
+}
